@@ -62,6 +62,10 @@ def _lookalikes(value):
     return out
 
 
+class _Level(str):
+    """a plain str subclass."""
+
+
 def _variants(enum_name, member):
     """spellings that must parse to `member`."""
     v = [("value", member.value)]
@@ -105,8 +109,12 @@ def run_unit(unit, acc):
             for m in cls:
                 for vk, s in _variants(e, m):
                     check_case({"kind": "parse", "enum": e, "parser": pname, "arg": s, "expect": m.name, "variant": vk}, acc)
+                    if vk == "value":
+                        for st in ("numpy", "subclass"):
+                            check_case({"kind": "parse", "enum": e, "parser": pname, "arg": s, "expect": m.name, "variant": "value:" + st, "strtype": st}, acc)
             for alias, target in ALIASES.get(e, {}).items():
                 check_case({"kind": "parse", "enum": e, "parser": pname, "arg": alias, "expect": target, "variant": "alias"}, acc)
+                check_case({"kind": "parse", "enum": e, "parser": pname, "arg": alias, "expect": target, "variant": "alias:numpy", "strtype": "numpy"}, acc)
             others = set()
             for oe, ocls in ENUMS.items():
                 if oe != e:
@@ -153,6 +161,10 @@ def check_case(case, acc):
     if k == "parse":
         e, pname, arg = case["enum"], case["parser"], case["arg"]
         cls = ENUMS[e]
+        if case.get("strtype") == "numpy":      # the same characters held by a str subclass (an element of a numpy string array,
+            arg = np.array([arg])[0]            # a user-defined str type): still that string
+        elif case.get("strtype") == "subclass":
+            arg = _Level(arg)
         kind, val = _outcome(PARSERS[e][pname], arg)
         acc.exec()
         acc.compared()
